@@ -3,7 +3,7 @@
 Require Extraction.
 Require Import ExtrOcamlBasic.
 From Coq Require Import Strings.Byte.
-From Sftp Require Import Base.GoSem Mode.FileMode Wire.Prim Wire.Packets Wire.ClientParse.
+From Sftp Require Import Base.GoSem Mode.FileMode Wire.Prim Wire.Packets Wire.ClientParse Srv.ReadOnly.
 Extraction Language OCaml.
 Extraction "model.ml"
   Byte.of_bits Byte.to_bits
@@ -11,4 +11,5 @@ Extraction "model.ml"
   os_mode fileStat_flags setstat_ops run_until_fail
   encA encB decA decB_request decB_response recv_frame recv_frame_B attrs_dec attrs_alloc_cells decB_name_alloc_cells guardB
   rawify wf_packet ptype
-  client_safe parse_status_only parse_handle parse_attrs parse_name1 parse_readdir parse_statvfs parse_data read_chunk path_base.
+  client_safe parse_status_only parse_handle parse_attrs parse_name1 parse_readdir parse_statvfs parse_data read_chunk path_base
+  gate ro_fixed may_mutate effects reading_request.
